@@ -87,7 +87,7 @@ func compare(c *core.Ctx, what string, seq []pair, vv *pos.Validators, ref []pai
 
 func main() {
 	c := core.New("C12", "exploration")
-	c.Set("rule", "all Set() call sequences of length 0..4 over IDs {1,2,3,9} x weights {0,1,2,7,2^30}; a case is non-trivial/distinct per distinct final non-zero (ID,weight) map with >=2 members; big builder: all 1-4 stake tuples from the boundary list")
+	c.Set("rule", "all Set() call sequences of length 0..4 (thorough: 0..5) over IDs {1,2,3,9} x weights {0,1,2,7,2^30}; a case is non-trivial/distinct per distinct final non-zero (ID,weight) map with >=2 members; big builder: all 1-4 stake tuples from the boundary list")
 	var alpha []pair
 	for _, id := range ids {
 		for _, w := range weights {
@@ -119,6 +119,11 @@ func main() {
 				prefixes = append(prefixes, []pair{alpha[it.a], alpha[it.b], alpha[x]})
 				for y := 0; y < n; y++ {
 					prefixes = append(prefixes, []pair{alpha[it.a], alpha[it.b], alpha[x], alpha[y]})
+					if !c.Quick() {
+						for z := 0; z < n; z++ {
+							prefixes = append(prefixes, []pair{alpha[it.a], alpha[it.b], alpha[x], alpha[y], alpha[z]})
+						}
+					}
 				}
 			}
 		}
